@@ -3,6 +3,7 @@ use crate::sup::{Check, Ctx};
 pub mod binfile;
 pub mod strlife;
 pub mod collide;
+pub mod unisweep;
 pub mod c01;
 pub mod c02;
 pub mod flow;
